@@ -96,9 +96,12 @@ View(fs, paths, p) ==
 \* before: the disk before the operation; after: the disk after crash + restart
 Finals(paths) == {p \in DOMAIN paths : paths[p].area = "final"}
 
-\* every share the operation does not write keeps its data and leases
-C29_Others(before, after, paths, targets) ==
-  \A p \in Finals(paths) \ targets : View(after, paths, p) = View(before, paths, p)
+\* every share the operation does not write keeps its data and leases; a share that the operation
+\* only puts a lease on (leaseTargets: existing shares of a bucket at allocate_buckets) keeps its data
+SameData(a, b) == a.present = b.present /\ a.dok = b.dok /\ a.data = b.data
+C29_Others(before, after, paths, targets, leaseTargets) ==
+  /\ \A p \in Finals(paths) \ (targets \cup leaseTargets) : View(after, paths, p) = View(before, paths, p)
+  /\ \A p \in leaseTargets \ targets : SameData(View(after, paths, p), View(before, paths, p))
 
 \* an operation that only adds or renews leases never changes any share's data
 C29_LeaseOnly(before, after, paths) ==
